@@ -34,7 +34,7 @@ class Prop(BaseProp):
     budget = {"quick": 420, "thorough": 27000}
     must_see = ["N>=5", "repeated_train", "empty_train_in_list", "permutation_checked", "matrix_checked",
                 "tail:op1_tail_longer", "tail:op2_tail_longer", "tail:end_together", "sync_profile_checked",
-                "RI_true", "max_tau_positive", "mrts_positive", "indices_selection", "indices_non_prefix"]
+                "RI_true", "max_tau_positive", "mrts_positive", "indices_selection", "indices_non_prefix", "interval_given"]
     arm_files = [("pyspike/generic.py", None),
                  ("pyspike/cython/python_backend.py", ["add_piece_wise_const_python", "add_piece_wise_lin_python",
                                                        "add_discrete_function_python"])]
@@ -51,6 +51,12 @@ class Prop(BaseProp):
             case["perm_seed"] = rng.randrange(1 << 30)
             N = len(case["trains"])
             case["idx"] = common.pick_indices(rng, N) if (N >= 3 and rng.random() < 0.3) else None
+            if rng.random() < 0.5:
+                bps = sorted({t for s in case["trains"] for t in s})
+                a, b, kd = gen.pick_interval(rng, case["ts"], case["te"], bps, kind=rng.choice([None, None, "full"]))
+                case["interval"] = [a, b]
+            else:
+                case["interval"] = None
             yield case
 
     def check(self, case, ctx):
@@ -138,6 +144,26 @@ class Prop(BaseProp):
             ctx.expect(np.array_equal(Mx, Mx.T), name + "-matrix-symmetry", "matrix not symmetric")
             for (i, j), v in vals.items():
                 ctx.close(Mx[i, j], v, name + "-matrix-entry", "%s matrix[%d,%d] vs bivariate value" % (name, i, j), rel=1e-12)
+
+        # ---------------- the same with an averaging interval: matrix entries and multivariate scalars vs bivariate values
+        iv = case.get("interval")
+        if iv is not None:
+            ctx.count("interval_given")
+            ivt = (iv[0], iv[1])
+            for name, fnm, fns, kw, diag, pooled in (("isi", ps.isi_distance_matrix, ps.isi_distance, kw_isi, 0.0, False),
+                                                     ("spike", ps.spike_distance_matrix, ps.spike_distance, kw_spk, 0.0, False),
+                                                     ("sync", ps.spike_sync_matrix, ps.spike_sync, kw_syn, 1.0, True)):
+                Mx = np.asarray(ctx.call(fnm, full, interval=ivt, **sel, **kw))
+                vals = {}
+                for (i, j) in pairs:
+                    vals[(i, j)] = ctx.call(fns, sts[i], sts[j], interval=ivt, **kw)
+                if ctx.expect(Mx.shape == (N, N), name + "-matrix-shape", "shape %r" % (Mx.shape,)):
+                    for (i, j), v in vals.items():
+                        ctx.close(Mx[i, j], v, name + "-matrix-entry:interval", "%s matrix[%d,%d] with interval %r vs bivariate value" % (name, i, j, iv), rel=1e-12)
+                    ctx.expect(np.all(np.diag(Mx) == diag), name + "-matrix-diagonal", "diagonal with interval")
+                if not pooled:
+                    dm = ctx.call(fns, full, interval=ivt, **sel, **kw)
+                    ctx.close(dm, sum(vals.values()) / M, name + "-multi-distance:interval", "%s distance(list, interval=%r) vs mean of pair distances" % (name, iv), rel=1e-12)
 
         # ---------------- permutations
         if N >= 3:
